@@ -174,6 +174,12 @@ struct BufFamily : Family {
     push(FINISH_STR, 0);
   }
   bool terminal(const Op &o) const override { return o.c == FINISH_STR; }
+  void pre_witness(Instance *ip, const Op &op, Ctx &ctx) override
+  {
+    BInst *in = (BInst *)ip;
+    if (op.c == TAG_ROLLBACK && in->tag >= 0 && (size_t)in->tag < in->cur) ctx.witness("rollback");
+    if (op.c == SET_LENGTH && op.a < 2 && !in->isconst) ctx.witness("truncated");
+  }
 
   void compare(BInst *in, Ctx &ctx)
   {
@@ -324,7 +330,6 @@ struct BufFamily : Family {
         st  = ares_buf_tag_rollback(in->buf);
         exp = in->tag < 0 ? ARES_EFORMERR : ARES_SUCCESS;
         if (in->tag >= 0) {
-          if ((size_t)in->tag < in->cur) ctx.witness("rollback");
           in->cur = (size_t)in->tag;
           in->tag = -1;
         }
@@ -345,7 +350,6 @@ struct BufFamily : Family {
         exp        = (op.a == 2 || in->isconst) ? ARES_EFORMERR : ARES_SUCCESS;
         if (exp == ARES_SUCCESS) {
           in->s.resize(in->cur + len);
-          ctx.witness("truncated");
         }
         break;
       }
@@ -404,6 +408,10 @@ struct BufFamily : Family {
         }
         std::vector<std::string> want = split_ref(tail, ',', ab, tr, nd, ci, maxs), got;
         ares_array_t            *arr  = nullptr;
+        if (strs) // C strings are validated to be printable ASCII (as ares_buf_fetch_str_dup documents)
+          for (auto &w : want)
+            for (unsigned char ch : w)
+              if (ch < 0x20 || ch > 0x7e) exp = ARES_EBADSTR;
         if (strs) st = ares_buf_split_str_array(in->buf, (const unsigned char *)",", 1, flags, maxs, &arr);
         else st = ares_buf_split(in->buf, (const unsigned char *)",", 1, flags, maxs, &arr);
         if (st == ARES_SUCCESS && arr) {
